@@ -142,8 +142,9 @@ def install(E: Any) -> None:
         kv = keyof(self.seq_idx(xs, bv), st3)
         inner = self.pending_raises
         self.pending_raises = saved
+        base = len(st.pc)
         for (pc_at, neg, exc, what) in inner:
-            local = pc_at[len(st.pc):]
+            local = pc_at[base:]
             rc = z3.Exists([bv], z3.And(*local, neg))
             self.pending_raises.append((list(st.pc), rc, exc, f"{what} (in sorted key)"))
             st.pc.append(z3.Not(rc))
@@ -280,6 +281,31 @@ def install(E: Any) -> None:
                 return V(isf(v.t), BOOL)
         raise Unsupported(f"isinstance(_, {tname}) on {v.ty}", n)
     E.builtins["isinstance"] = b_isinstance
+
+    def b_getattr(self: Any, n: ast.Call, st: Any) -> Any:
+        """getattr(record, name) for a record all of whose fields have one type: the field selected by the (possibly symbolic)
+        name; AttributeError when the name is none of the fields"""
+        if len(n.args) != 2:
+            raise Unsupported("getattr with a default", n)
+        obj = self.expr(n.args[0], st)
+        if isinstance(obj.ty, OptTy) and isinstance(obj.ty.inner, RecTy):
+            self.check(st, z3.Not(self.pre.opt_is_none(obj.ty, obj.t)), "AttributeError", "getattr on None")
+            obj = V(self.pre.opt_val(obj.ty, obj.t), obj.ty.inner)
+        if not isinstance(obj.ty, RecTy):
+            raise Unsupported(f"getattr on {obj.ty}", n)
+        name = self.coerce(self.expr(n.args[1], st), STR)
+        ftys = {t for t in obj.ty.fields.values()}
+        if len(ftys) != 1:
+            raise Unsupported(f"getattr on a record with fields of several types ({obj.ty.name})", n)
+        fty = next(iter(ftys))
+        names = list(obj.ty.fields)
+        self.check(st, z3.Or(*[name.t == self.strlit(f).t for f in names]), "AttributeError", f"getattr: not a field of {obj.ty.name}")
+        vals = [self.read_field(st, obj, f) for f in names]
+        t = vals[-1].t
+        for f, v in reversed(list(zip(names[:-1], vals[:-1]))):
+            t = z3.If(name.t == self.strlit(f).t, v.t, t)
+        return V(t, fty)
+    E.builtins["getattr"] = b_getattr
 
     def b_int(self: Any, n: ast.Call, st: Any) -> Any:
         v = self.expr(n.args[0], st)
